@@ -55,6 +55,7 @@ type Act struct {
 	locks      []string // mutex addresses acquired by this function
 	ifaceCon   *Contract // interface contract this method implements (its ensures are obligations too)
 	ifaceParams map[string]Val
+	curCall    *ssa.CallCommon
 	callPos  token.Pos
 }
 
